@@ -1,31 +1,171 @@
 package main
 
-// Floating point (DESIGN §2.3.5). Filled in by the DPT phase.
+// Floating point (DESIGN §2.3.5): float registers are FP-sorted terms; memory cells and
+// bit casts use the IEEE bit pattern. fp -> bits introduces a fresh bit-vector r with the
+// defining axiom to_fp(r) = x (NaN payloads stay unconstrained).
 
 import (
+	"fmt"
 	"go/token"
 	"go/types"
+	"math"
 	"math/big"
 )
 
-func (e *Exec) fpNeg(x *Term, T types.Type) *Term { e.fail("float op not supported yet"); return nil }
+func fpSort(w int) Sort { return Sort{KFP, w} }
+
+func fpToFp(w int) string {
+	if w == 32 {
+		return "(_ to_fp 8 24)"
+	}
+	return "(_ to_fp 11 53)"
+}
+
+func (e *Exec) fpFromBits(bits *Term) *Term {
+	if bits.Op == OVar {
+		if fp, ok := e.fpOf[bits]; ok {
+			return fp
+		}
+	}
+	return e.c.FPop(fpToFp(bits.S.W), fpSort(bits.S.W), bits)
+}
+
+func (e *Exec) fpToBits(x *Term) *Term {
+	c := e.c
+	// to_fp(b) -> b
+	if x.Op == OFP && len(x.Args) == 1 && x.Args[0].S.K == KBV && x.Name == fpToFp(x.S.W) {
+		return x.Args[0]
+	}
+	if r, ok := e.fpBits[x]; ok {
+		return r
+	}
+	r := c.Fresh("fpbits", BV(x.S.W))
+	e.axioms = append(e.axioms, c.Eq(c.FPop(fpToFp(x.S.W), x.S, r), x))
+	e.fpBits[x] = r
+	e.fpOf[r] = x
+	return r
+}
+
+func (e *Exec) fpNeg(x *Term, T types.Type) *Term {
+	return e.c.FPop("fp.neg", x.S, x)
+}
+
 func (e *Exec) fpBin(op token.Token, x, y *Term, T types.Type) *Term {
-	e.fail("float op not supported yet")
+	c := e.c
+	switch op {
+	case token.ADD:
+		return c.FPop("fp.add RNE", x.S, x, y)
+	case token.SUB:
+		return c.FPop("fp.sub RNE", x.S, x, y)
+	case token.MUL:
+		return c.FPop("fp.mul RNE", x.S, x, y)
+	case token.QUO:
+		return c.FPop("fp.div RNE", x.S, x, y)
+	case token.EQL:
+		return c.FPop("fp.eq", Bool, x, y)
+	case token.NEQ:
+		return c.Not(c.FPop("fp.eq", Bool, x, y))
+	case token.LSS:
+		return c.FPop("fp.lt", Bool, x, y)
+	case token.LEQ:
+		return c.FPop("fp.leq", Bool, x, y)
+	case token.GTR:
+		return c.FPop("fp.gt", Bool, x, y)
+	case token.GEQ:
+		return c.FPop("fp.geq", Bool, x, y)
+	}
+	e.fail("float operator %v", op)
 	return nil
 }
+
+func floatWidth(T types.Type) int {
+	if b, ok := T.Underlying().(*types.Basic); ok && b.Kind() == types.Float32 {
+		return 32
+	}
+	return 64
+}
+
+// fpConvert implements Go conversions where at least one side is a float type.
 func (e *Exec) fpConvert(st *State, x *Term, S, D types.Type) *Term {
-	e.fail("float conversion not supported yet")
+	c := e.c
+	switch {
+	case isFloat(S) && isFloat(D):
+		dw := floatWidth(D)
+		if x.S.W == dw {
+			return x
+		}
+		return c.FPop(fpToFp(dw)+" RNE", fpSort(dw), x)
+	case isInteger(S) && isFloat(D):
+		dw := floatWidth(D)
+		if isSigned(S) {
+			return c.FPop(fpToFp(dw)+" RNE", fpSort(dw), x)
+		}
+		if dw == 32 {
+			return c.FPop("(_ to_fp_unsigned 8 24) RNE", fpSort(dw), x)
+		}
+		return c.FPop("(_ to_fp_unsigned 11 53) RNE", fpSort(dw), x)
+	case isFloat(S) && isInteger(D):
+		// Go truncates toward zero; the result for out-of-range values is implementation
+		// defined (and unspecified in SMT-LIB as well): nothing can be proved about it
+		w := intWidth(D)
+		e.assumed["float->int conversion of out-of-range values is implementation-defined (left unspecified)"] = true
+		if isSigned(D) {
+			return c.FPop(fmt.Sprintf("(_ fp.to_sbv %d) RTZ", w), BV(w), x)
+		}
+		return c.FPop(fmt.Sprintf("(_ fp.to_ubv %d) RTZ", w), BV(w), x)
+	}
+	e.fail("conversion %v -> %v", S, D)
 	return nil
 }
+
 func (e *Exec) fpContractBin(env *cenv, op string, a, b cval) cval {
-	e.fail("float op not supported yet")
+	c := e.c
+	x, y := a.v[0], b.v[0]
+	if x.S != y.S {
+		env.errf("float operands of different width")
+	}
+	switch op {
+	case "+":
+		return cval{v: Val{c.FPop("fp.add RNE", x.S, x, y)}, T: a.T}
+	case "-":
+		return cval{v: Val{c.FPop("fp.sub RNE", x.S, x, y)}, T: a.T}
+	case "*":
+		return cval{v: Val{c.FPop("fp.mul RNE", x.S, x, y)}, T: a.T}
+	case "/":
+		return cval{v: Val{c.FPop("fp.div RNE", x.S, x, y)}, T: a.T}
+	case "==":
+		return cval{v: Val{c.FPop("fp.eq", Bool, x, y)}, T: tBool}
+	case "!=":
+		return cval{v: Val{c.Not(c.FPop("fp.eq", Bool, x, y))}, T: tBool}
+	case "<":
+		return cval{v: Val{c.FPop("fp.lt", Bool, x, y)}, T: tBool}
+	case "<=":
+		return cval{v: Val{c.FPop("fp.leq", Bool, x, y)}, T: tBool}
+	case ">":
+		return cval{v: Val{c.FPop("fp.gt", Bool, x, y)}, T: tBool}
+	case ">=":
+		return cval{v: Val{c.FPop("fp.geq", Bool, x, y)}, T: tBool}
+	}
+	env.errf("float operator %s", op)
 	return cval{}
 }
+
 func (e *Exec) fpConstFromInt(k *big.Int, T types.Type) cval {
-	e.fail("float const not supported yet")
-	return cval{}
+	f, _ := new(big.Float).SetInt(k).Float64()
+	return e.fpConst(f, T)
 }
-func (e *Exec) fpIsNaN(x *Term, T types.Type) *Term { e.fail("float op not supported yet"); return nil }
+
+func (e *Exec) fpConst(f float64, T types.Type) cval {
+	if floatWidth(T) == 32 {
+		return cval{v: Val{e.fpFromBits(e.c.Const(32, uint64(math.Float32bits(float32(f)))))}, T: T}
+	}
+	return cval{v: Val{e.fpFromBits(e.c.Const(64, math.Float64bits(f)))}, T: T}
+}
+
+func (e *Exec) fpIsNaN(x *Term, T types.Type) *Term {
+	return e.c.FPop("fp.isNaN", Bool, x)
+}
+
 func (e *Exec) runeToString(fr *Frame, st *State, x *Term, S types.Type) Val {
 	// string(byte(c)) / string(rune(c)) for c < 0x80: one byte
 	c := e.c
